@@ -155,7 +155,7 @@ func main() {
 		sp = append(sp, runSubmgr(c))
 	}
 	emit(cfg, "submgr_paths", "submgr", sp, extra(map[string]interface{}{"exhaustive": true,
-		"note": "establishment prefix x {terminate, idle timeout, session timeout, Stop, 2 concurrent terminations} x second ending path"}))
+		"note": "establishment prefix x {terminate, idle timeout, session timeout, Stop, 2 concurrent terminations, terminate on a cancelled / expired context, terminate with a failing allocator release} x second ending path (every other path) x a final live terminate"}))
 	ns, nsg := 70, 50
 	if cfg.Thorough() {
 		ns, nsg = 2500, 1500
@@ -167,7 +167,7 @@ func main() {
 	for i := 0; i < nsg; i++ {
 		sg = append(sg, runSubmgr(genRandS(rng.Fork(), maxOps, true)))
 	}
-	emit(cfg, "submgr_guarded", "submgr", sg, extra(map[string]interface{}{"guarded": "sequential callers, no Manager.Stop"}))
+	emit(cfg, "submgr_guarded", "submgr", sg, extra(map[string]interface{}{"guarded": "sequential callers, any caller context, working allocator, no Manager.Stop"}))
 }
 
 func writeCorpus(dir string) {
@@ -205,6 +205,11 @@ func writeCorpus(dir string) {
 	se := []SOp{{K: "create", C: 0}, {K: "auth", N: 1, OK: true}, {K: "assign", N: 1}, {K: "activate", N: 1}}
 	w("k16d-manager-stop-releases-nothing", "submgr", SCase{Cfg: sc, Ops: append(append([]SOp{}, se...), SOp{K: "stop"})},
 		"known K16d: Manager.Stop (shutdown) ends no session: address, indexes stay, no terminate event")
+	w("k16g-release-error-leaks-address", "submgr", SCase{Cfg: sc, Ops: append(append([]SOp{}, se...), SOp{K: "term", N: 1, RelFail: true}, SOp{K: "term", N: 1})},
+		"known K16g: the allocator's release fails: the session is removed all the same, the address stays allocated")
+	w("f16e-terminate-on-cancelled-context", "submgr", SCase{Cfg: sc, Ops: append(append([]SOp{}, se...), SOp{K: "term", N: 1, Ctx: 1}, SOp{K: "term", N: 1},
+		SOp{K: "create", C: 0}, SOp{K: "auth", N: 2, OK: true}, SOp{K: "assign", N: 2}, SOp{K: "term", N: 2, Ctx: 2}, SOp{K: "age", D: 90000}, SOp{K: "tick"})},
+		"fixed ac242d7: terminate on a cancelled / expired context leaked the address; also the sequence a stuck-session regression fails on (aborted terminate, then live terminate, then timeout tick)")
 	w("f16d-concurrent-terminate-double-release", "submgr", SCase{Cfg: sc, Ops: append(append([]SOp{}, se...), SOp{K: "race", N: 1, P: 2}, SOp{K: "term", N: 1})},
 		"fixed fe50cc3: two concurrent TerminateSession calls both released the address and emitted the terminate event (regression)")
 }
